@@ -84,7 +84,36 @@ FIELDS = ['format', 'num_ampl_options', 'ampl_vbtol', 'num_vars', 'num_algebraic
           'num_common_exprs_in_single_objs']
 
 
-def h_roundtrip():
+def header_defaults():
+    """the reader starts from `NLHeader header = NLHeader();` (nl-reader.h): value-initialisation zeroes the object, then the user-provided
+    NLInfo() constructor (include/mp/nl-header.h) sets its defaults.  The constructor body is extracted; its three library calls are rewritten."""
+    ex = extract.find_braced('include/mp/nl-header.h', r'\bNLInfo\(\)\s*\{')
+    body = ex.body[ex.body.index('{') + 1:ex.body.rindex('}')]
+    rules = [(r'std::fill\(ampl_options, ampl_options \+ MAX_AMPL_OPTIONS, 0\);', 'for (int k = 0; k < MAX_AMPL_OPTIONS; ++k) h->ampl_options[k] = 0;'),
+             (r'std::array<long, (\d+)> opt_default \{([^}]*)\};', r'long opt_default[\1] = {\2}; enum { vp_ndef = \1 };'),
+             (r'std::copy\(opt_default\.begin\(\), opt_default\.end\(\), ampl_options\);', 'for (int k = 0; k < vp_ndef; ++k) h->ampl_options[k] = opt_default[k];'),
+             (r'\bformat = BINARY;', 'h->format = NLHeader_BINARY;')]
+    for pat, rep in rules:
+        body, n = re.subn(pat, rep, body)
+        if n != 1:
+            raise extract.ExtractionError('NLInfo(): /%s/ fired %d times, expected 1' % (pat, n))
+    body, n = re.subn(r'(?m)^(\s*)(prob_name|num_ampl_options|ampl_vbtol|arith_kind|flags) = ', r'\1h->\2 = ', body)
+    if n != 5:
+        raise extract.ExtractionError('NLInfo(): %d plain member assignments, expected 5' % n)
+    if re.search(r'(?m)^\s*\w+ = ', body):
+        raise extract.ExtractionError('NLInfo(): a member assignment the extraction does not know')
+    hc = extract.blank_comments(extract.read_repo('include/mp/nl-header-c.h'))
+    consts = []
+    for name in ('NL_ARITH_IEEE_LITTLE_ENDIAN', 'WANT_OUTPUT_SUFFIXES'):
+        m = re.search(r'\b%s\s*=\s*(\d+)' % name, hc)
+        if not m:
+            raise extract.ExtractionError('nl-header-c.h: %s not found' % name)
+        consts.append('%s = %s' % (name, m.group(1)))
+    return ('enum { %s };   /* nl-header-c.h */\n#line %d "/repo/include/mp/nl-header.h"\nstatic void NLHeader_default(NLHeader *h) { memset(h, 0, sizeof *h); %s }\n'
+            % (', '.join(consts), ex.line, body))
+
+
+def h_roundtrip(name='C02.header.roundtrip', prop='C02', writer=None, call='format_header()', extra_pre='', extra_decl='', stub='fmt::Writer output (R22: expanded into a token stream)'):
     src = extract.blank_comments(extract.read_repo('include/mp/nl-header-c.h'))
     missing = [f for f in FIELDS if not re.search(r'\b%s\b' % f, src)]
     if missing:
@@ -99,7 +128,7 @@ def h_roundtrip():
                 refs={'header': 'header_p'}, label='mp::internal::TextReader::ReadHeader', nmatches=1)
     parts = ['#include "mp_shim.h"\nint vp_one;\n', C02.header_struct(), C02.HDR_CONSTS,
              extract.Braced(NLC, r'enum \{\s*USE_VBTOL_OPTION', header='enum', label='enum {USE_VBTOL_OPTION, READ_VBTOL}'),
-             'enum { arith_LAST = 5 };   /* mp::arith::LAST = NL_ARITH_LAST = NL_ARITH_CRAY (nl-header-c.h) */\n', STREAM, formatter_fn(), reader, '''
+             'enum { arith_LAST = 5 };   /* mp::arith::LAST = NL_ARITH_LAST = NL_ARITH_CRAY (nl-header-c.h) */\n', STREAM, header_defaults(), extra_decl, writer if writer is not None else formatter_fn(), reader, '''
 void harness(void) {
   vp_one = 1;
   /* the header to be written: arbitrary, inside the value ranges of a valid NL header */
@@ -116,10 +145,9 @@ void harness(void) {
                    h_in.num_common_exprs_in_single_cons + h_in.num_common_exprs_in_single_objs <= INT_MAX);
   __CPROVER_assume(h_in.format == NLHeader_TEXT ? h_in.arith_kind == 0 : (h_in.arith_kind >= 0 && h_in.arith_kind <= arith_LAST));   /* a text header carries no arithmetic kind */
   __CPROVER_assume(h_in.num_con_nonzeros < (1UL << 53) && h_in.num_obj_nonzeros < (1UL << 53));
-  g_nt = 0; g_wline = 0;
-  format_header();                                 /* writer */
-  NLHeader h_out; memset(&h_out, 0, sizeof h_out);   /* NLHeader() zero-initialises (nl-header.h) */
-  for (int k = 0; k < MAX_AMPL_OPTIONS; ++k) h_out.ampl_options[k] = 0;
+%s  g_nt = 0; g_wline = 0;
+  %s;                                 /* writer */
+  NLHeader h_out; NLHeader_default(&h_out);           /* NLHeader header = NLHeader(); (nl-reader.h) */
   g_rd = 0; g_rline = 0;
   ReadHeader(&h_out);                              /* reader */
   __CPROVER_assert(g_rd == g_nt, "the reader consumed every number the formatter wrote");
@@ -128,9 +156,9 @@ void harness(void) {
   if (h_in.ampl_options[USE_VBTOL_OPTION] == READ_VBTOL) __CPROVER_assert(h_out.ampl_vbtol == h_in.ampl_vbtol, "ReadHeader reports vbtol as it was written");
   VP_REACH("end");
 }
-''' % (pre, checks)]
-    return Harness('C02.header.roundtrip', 'C02', parts, plain=True, timeout=900, flags=['--unwind', '12'],
-                   stubs=['fmt::Writer output (R22: expanded into a token stream)', 'leaf readers of TextReader (token stream: contracts proved by C02.text.*)'],
+''' % (pre, extra_pre, call, checks)]
+    return Harness(name, prop, parts, plain=True, timeout=900, flags=['--unwind', '12'],
+                   stubs=[stub, 'leaf readers of TextReader (token stream: contracts proved by C02.text.*)'],
                    note='options loops bounded by MAX_AMPL_OPTIONS = 9: unwinding 12 is complete')
 
 
